@@ -27,7 +27,12 @@ RULE = ('merges of generated probe directories: corpus (probe with exactly one s
         'non-decreasing time vectors of 1..3 spikes over 3 time values (2 probes; thorough: also 3 probes of 1..2 spikes '
         'and 2 probes of up to 4 spikes) with pseudo-random ids, then seeded random merges of 1..4 probes x 1..30 spikes '
         '(ties inside and across probes, id gaps, curated clusters, time/id/amplitude dtypes, (n,1) vectors, TSV files in '
-        'all/some/none, unsorted probe, 0..2 trailing templates without spikes in any probe). Non-trivial = the merge completes with >= 2 probes and at least one time shared by '
+        'all/some/none, unsorted probe, 0..2 trailing templates without spikes in any probe). On half of the generated merges '
+        '(and 10 corpus cases that run first) the CALLER\'s side is drawn too: directory names from 8 pools (imec<n>, probe<n> '
+        'with text order != numeric order, nested <x>/ks of equal base name, mixed case, digits) passed in text-sorted, '
+        'text-reversed or arbitrary order, as str / Path / relative path / trailing separator / tuple, output directory '
+        'default / named before-between-after the probes / nested / already existing, explicit probe_info or the default '
+        'labels (probes.description.tsv row k = k-th directory of the caller\'s list: judged by the harness on a third of them). Non-trivial = the merge completes with >= 2 probes and at least one time shared by '
         'two probes or one TSV file present; distinct = distinct abstract input.')
 EXHAUSTIVE = {'quick': True, 'thorough': True}
 CLAUSES = {
@@ -153,6 +158,42 @@ def _random_case(rng, big=False):
     return {'kind': 'merge', 'inp': {'rate': rng.choice([100.0, 128.0, 30000.0]), 'probes': probes}}
 
 
+NAME_POOLS = [['imec0', 'imec1', 'imec2', 'imec3'], ['probe1', 'probe2', 'probe10', 'probe11'], ['left', 'right', 'mid', 'top'],
+              ['probe_a', 'probe_b', 'probe_c', 'probe_d'], ['A', 'b', 'C', 'd'], ['n0/ks', 'n1/ks', 'n1/ks2', 'n2/sub/ks'],
+              ['p.0', 'p 1', 'p-2', 'p_3'], ['9', '10', '011', '1']]
+OUT_NAMES = ['merged', '0_out', 'zz_out', 'out/deep/merged', 'imec0_merged', 'n1/merged', 'M']
+PASS = ['str', 'path', 'rel', 'slash', 'tuple']
+
+
+def _caller(inp, rng, force=False):
+    """Draws how the caller names and passes the directories: names in ANY order w.r.t. their lexicographic order (sorted,
+    reversed, arbitrary permutation; mixed pools), the argument form, the output directory, an explicit probe_info."""
+    k = len(inp['probes'])
+    if inp.get('big') or k == 0:
+        return
+    if force or rng.random() < 0.8:
+        pool = list(rng.choice(NAME_POOLS))
+        if rng.random() < 0.25:
+            pool = sorted({nm for pl in rng.sample(NAME_POOLS, 2) for nm in pl})
+        names = rng.sample(pool, k)
+        order = rng.choice(['any', 'any', 'reversed', 'sorted'])
+        if order != 'any':
+            names = sorted(names, reverse=(order == 'reversed'))
+        inp['names'] = names
+    if rng.random() < 0.5:
+        inp['pass'] = rng.choice(PASS[1:])
+    if rng.random() < 0.4:
+        outs = [o for o in OUT_NAMES if all(o != nm and not o.startswith(nm + '/') and not nm.startswith(o + '/')
+                                            for nm in D11.probe_names(inp))]
+        inp['out'] = rng.choice(outs)
+    if rng.random() < 0.2:
+        inp['out_exists'] = True
+    if rng.random() < 0.3:
+        inp['info'] = True
+    if rng.random() < 0.35:
+        inp['chk_labels'] = True
+
+
 def _nondecr(n, vals):
     return [list(c) for c in itertools.combinations_with_replacement(vals, n)]
 
@@ -168,6 +209,20 @@ def _corpus(rng):
           'meta': {'cluster_KSLabel.tsv': {'field': 'KSLabel', 'rows': [[1, 'good']]},
                    'cluster_Amplitude.tsv': {'field': 'Amplitude', 'rows': [[0, '2.5'], [1, '7']]}}}
     P2 = {'times': [3], 'amps': [8.0], 'tmpl': [0], 'clu': [3], 'meta': {}}
+    # the caller's order is the probe order, whatever the directory names (stage 5): names passed in reversed / arbitrary
+    # lexicographic order, nested directories of the same base name, numeric suffixes whose text order differs from their
+    # numeric order, every argument form, explicit probe_info, output directory sorting before / between the probes
+    def addc(probes, **kw):
+        cases.append({'kind': 'merge', 'inp': dict({'rate': 100.0, 'probes': probes}, **kw)})
+    addc([P0, P1], names=['probe_b', 'probe_a'])
+    addc([P1, P0], names=['imec1', 'imec0'], info=True)
+    addc([P0, P1, P2], names=['probe2', 'probe10', 'probe1'], **{'pass': 'path'})
+    addc([P0, P1, P2], names=['probe2', 'probe10', 'probe1'], chk_labels=True)
+    addc([P2, P1, P0], names=['m', 'z', 'a'], out='n', info=True, chk_labels=True)
+    addc([P0, P1], names=['b/ks', 'a/ks'], out='a/merged', **{'pass': 'rel'})
+    addc([P1, P2, P0, P1], names=['right', 'left', 'B', 'a'], out='0_out', out_exists=True, **{'pass': 'slash'})
+    addc([P0, P1], names=['probe10', 'probe2'], **{'pass': 'tuple'})                 # control: text-sorted, not number-sorted
+    addc([P0, P0], names=['y', 'x'], chk_labels=True)                              # identical content: only the labels differ
     # fixed defect 1 (fix-c11): a probe with exactly one spike, in every position, alone with a second one-spike probe
     add([P0, P1, P2]); add([P2, P0]); add([P0, P2, P1]); add([P2, dict(P2, times=[3], clu=[0])])
     add([dict(P2, vec2d=True), P1])
@@ -259,8 +314,13 @@ def _corpus(rng):
 
 def generate(tier, rng):
     cases = _corpus(rng)
+    ncorpus = len(cases)
     if tier == 'search':
-        return cases + [_random_case(rng, big=(i % 3 == 0)) for i in range(1500)]
+        cases = cases + [_random_case(rng, big=(i % 3 == 0)) for i in range(1500)]
+        for c in cases[ncorpus:]:
+            if rng.random() < 0.5:
+                _caller(c['inp'], rng)
+        return cases
     quick = tier == 'quick'
     vals = [0, 1, 2]
     # exhaustive: every pair of non-decreasing time vectors (the tie structure inside and across probes)
@@ -300,6 +360,11 @@ def generate(tier, rng):
     nrand = 160 if quick else 4000
     for i in range(nrand):
         cases.append(_random_case(rng, big=(not quick and i % 4 == 0)))
+    # the caller's side (directory names in any order, argument form, output directory, probe_info) on half of the generated
+    # merges; drawn after everything else, so that the abstract probes are the same as without this axis
+    for c in cases[ncorpus:]:
+        if rng.random() < 0.5:
+            _caller(c['inp'], rng)
     return cases
 
 
@@ -313,7 +378,9 @@ def run_case(case):
     try:
         dirs, out = D11.materialise(inp, root)
         before = D11.tree_hash(dirs)
-        mg = Merger(dirs, out)
+        a_dirs, a_out = D11.as_passed(inp, dirs, out)
+        pinfo = D11.probe_info(inp)
+        mg = Merger(a_dirs, a_out) if pinfo is None else Merger(a_dirs, a_out, probe_info=copy.deepcopy(pinfo))
         m = mg.merge()
         after = D11.tree_hash(dirs)
 
@@ -361,6 +428,12 @@ def run_case(case):
             d = m.metadata.get(hdr[1])
             obs['ret_meta'].append(None if d is None else [hdr[1], [[int(k), str(d[k])] for k in sorted(d)]])
         del m
+        # probes.description.tsv labels the probes in the caller's order (row k = k-th directory of the caller's list / k-th
+        # entry of the explicit probe_info): judged here, not by the Coq comparator, and only on the cases that ask for it
+        # (a failure here is reported as a crash and would hide which clauses of the merged arrays fail on the same input)
+        labels = D11.read_probe_labels(out) if inp.get('chk_labels') else None
+        if inp.get('chk_labels') and labels != D11.expected_labels(inp):
+            raise ValueError('probes.description.tsv labels %r, expected %r' % (labels, D11.expected_labels(inp)))
         return ('merged', obs)
     finally:
         shutil.rmtree(root, ignore_errors=True)
@@ -479,6 +552,16 @@ def dist(case, obs):
            'merged_dtypes=%s' % ('/'.join(obs[1]['dts']) if obs[0] == 'merged' else '-'),
            'dtype_promoted=%s' % (obs[0] == 'merged' and bool(ps) and
                                   obs[1]['dts'] != [ps[0].get('tdt'), ps[0].get('cdt'), ps[0].get('idt')])]
+    inp = case['inp']
+    nms = inp.get('names')
+    out.append('dir_names=%s' % ('default' if nms is None else 'one' if len(nms) < 2 else 'text-sorted' if nms == sorted(nms)
+                                 else 'text-reversed' if nms == sorted(nms, reverse=True) else 'other-order'))
+    out.append('dir_names_nested=%s' % bool(nms and any('/' in nm for nm in nms)))
+    out.append('passed_as=%s' % inp.get('pass', 'str'))
+    out.append('out_dir=%s' % ('default' if 'out' not in inp else 'nested' if '/' in inp['out'] else 'named'))
+    out.append('out_dir_exists=%s' % bool(inp.get('out_exists')))
+    out.append('explicit_probe_info=%s' % bool(inp.get('info')))
+    out.append('probe_labels_judged=%s' % bool(inp.get('chk_labels')))
     for fn in META:
         n = sum(1 for p in ps if fn in p.get('meta', {}))
         out.append('%s=%s' % (fn, 'none' if n == 0 else 'all' if n == len(ps) else 'some'))
@@ -490,9 +573,14 @@ def dist(case, obs):
 
 def size(case):
     ps = case['inp']['probes']
-    return 50 * len(ps) + sum(10 * len(p['times']) + sum(p['times']) + sum(p['clu']) + sum(p['tmpl']) + (p.get('nt') or 0) +
+    inp = case['inp']
+    caller = sum(4 for key in CALLER_KEYS if key in inp) + sum(len(nm) for nm in inp.get('names', []))
+    return caller + 50 * len(ps) + sum(10 * len(p['times']) + sum(p['times']) + sum(p['clu']) + sum(p['tmpl']) + (p.get('nt') or 0) +
                               sum(r[0] for m in p.get('meta', {}).values() for r in m['rows']) +
                               5 * sum(len(m['rows']) + 1 for m in p.get('meta', {}).values()) for p in ps)
+
+
+CALLER_KEYS = ('names', 'pass', 'out', 'out_exists', 'info', 'chk_labels')
 
 
 def _fix_meta(p):
@@ -503,17 +591,33 @@ def shrink(case):
     inp = case['inp']
     ps = inp['probes']
 
-    def mk(new):
+    extras = {key: copy.deepcopy(inp[key]) for key in CALLER_KEYS if key in inp}
+
+    def mk(new, ex=None):
         if sum(len(p['times']) for p in new) < 2 or not new:
             return None
         for p in new:
             _fix_meta(p)
         big = inp.get('big') or any(D11.n_templates(p) > 64 for p in new)
-        return {'kind': 'merge', 'inp': dict({'rate': inp.get('rate', 100.0), 'probes': new}, **({'big': True} if big else {}))}
+        d = dict({'rate': inp.get('rate', 100.0), 'probes': new}, **({'big': True} if big else {}))
+        d.update(copy.deepcopy(extras if ex is None else ex))
+        return {'kind': 'merge', 'inp': d}
     out = []
     for k in range(len(ps)):
         if len(ps) > 1:
-            out.append(mk(copy.deepcopy(ps[:k] + ps[k + 1:])))
+            ex = copy.deepcopy(extras)
+            if 'names' in ex:
+                del ex['names'][k]
+            out.append(mk(copy.deepcopy(ps[:k] + ps[k + 1:]), ex))
+    # the caller's side: back to the defaults, one key at a time; names to the shortest names of the same relative order
+    for key in CALLER_KEYS:
+        if key in extras:
+            out.append(mk(copy.deepcopy(ps), {k2: v for k2, v in extras.items() if k2 != key}))
+    if 'names' in extras:
+        rank = {nm: i for i, nm in enumerate(sorted(extras['names']))}
+        canon = ['p%d' % rank[nm] for nm in extras['names']]
+        if canon != extras['names'] and len(canon) <= 10:
+            out.append(mk(copy.deepcopy(ps), dict(extras, names=canon)))
     for k, p in enumerate(ps):
         n = len(p['times'])
         for i in range(n):
